@@ -176,6 +176,7 @@ type Exec struct {
 	deadline time.Time
 	relaxed  bool // floats are reals with rounding-error terms (see relaxed.go)
 	opaque    bool // structure-only: float operations are uninterpreted functions
+	rerrArgs  []string
 	relaxedUF bool // rounding error as an uninterpreted function of the exact result (keeps repeated computations equal) instead of a fresh constant per operation
 }
 
